@@ -130,7 +130,18 @@ let accept_sock (trace : string list) : unit =
       | ["rd"; c; h] -> fire l (ERd (nat (int_of_string c), bytes_of_hex h)) None
       | ["shut"; c] -> fire l (EShut (nat (int_of_string c))) None
       | ["retain"; c; _; r] -> fire l (ERetain (nat (int_of_string c))) (Some (int_of_string r))
-      | ["close"; c] -> fire l (EClose (nat (int_of_string c))) None
+      | ["close"; c] ->
+        let ci = int_of_string c in
+        let skipped =
+          (match (if ci >= 0 then List.nth_opt !st.ctxs ci else None) with
+           | Some x when not x.k_flag && not (!st.preset x.k_conn) ->
+             let unread = List.length (!st.sent x.k_conn) - List.length x.k_got in
+             if unread > 0 then Some unread else None
+           | _ -> None) in
+        (match skipped with
+         | Some n when ci >= 0 ->
+           reject l (Printf.sprintf "cb_close although %d byte(s) the peer sent are still readable and nobody shut the context down: the back-end closed on a hang-up without offering them to the read callback" n)
+         | _ -> fire l (EClose (nat ci)) None)
       | ["release"; c] -> fire l (ERelease (nat (int_of_string c))) None
       | ["exitreq"] | ["xexit"] -> fire l EExitreq None
       | ["returned"] -> fire l EReturned None
@@ -142,6 +153,8 @@ let accept_sock (trace : string list) : unit =
         let h = match rest with h :: _ -> h | [] -> "" in
         fire l (ESend (nat (int_of_string k), bytes_of_hex h)) None
       | ["cclose"; k] -> fire l (EPclose (nat (int_of_string k))) None
+      | ["creset"; k] -> fire l (EPreset (nat (int_of_string k))) None
+      | ["halfclose"; c] -> fire l (EMsg (nat (int_of_string c))) None   (* a use of the context from a callback *)
       | ("cconn" | "cfail" | "sendfail" | "await" | "stalled" | "unstall") :: _ -> print_endline l
       | "F" :: _ -> ()
       | [] -> ()
